@@ -13,15 +13,15 @@ import (
 
 // Ctx carries everything one check run needs.
 type Ctx struct {
-	Prop      string
-	Tier      string
-	Seed      int64
-	Rng       *rand.Rand
-	DriverBin string
-	Scratch   string
+	Prop         string
+	Tier         string
+	Seed         int64
+	Rng          *rand.Rand
+	DriverBin    string
+	Scratch      string
 	PendingLines []string
-	ReplayDir string
-	Start     time.Time
+	ReplayDir    string
+	Start        time.Time
 
 	Evals      int
 	Distinct   map[string]bool // distinct non-trivial case fingerprints
